@@ -38,20 +38,20 @@ def run(tier, seed):
         for stream in ("A", "B"):
             # stream B (a rejected frame whose body is discarded, then two served ones): complete stream only, <= 2 cuts
             c = cuts if stream == "A" else 2
-            ri = vlib.run_tlc(s, "MC_Segments", cfg(ALL_DEV, c, stream), name="ideal-" + stream, timeout=2400)
+            ri = vlib.run_tlc(s, "MC_Segments", cfg(ALL_DEV, c, stream), name="ideal-" + stream, timeout=7200)
             if "violated" in ri:
                 raise Inconclusive("Segments.tla (ideal) violates " + ri["violated"])
             r0["distinct"] += ri.get("distinct", 0)
             r0["generated"] += ri.get("generated", 0)
             r = vlib.run_tlc(s, "MC_Segments", cfg(fixed, c, stream).replace("INVARIANTS Independent Dump", "INVARIANTS Dump"), workers=1,
-                             env={"GEN_OUT": out}, name="gen-" + stream, timeout=2400)
+                             env={"GEN_OUT": out}, name="gen-" + stream, timeout=7200)
         outs = []
 
         def args(i, k):
             o = os.path.join(s, "seg-%d.json" % i)
             outs.append(o)
             return ["-in", out, "-out", o, "-shard", str(i), "-nshard", str(k)]
-        res = vlib.run_shards("segments", args, timeout=3000)
+        res = vlib.run_shards("segments", args, timeout=5400)
         cases = 0
         findings = []
         samples = []
